@@ -258,6 +258,26 @@ def _pipeline_chunk(args):
                                "grammar": expected, "parser": got},
                               "parser %s a text the grammar %s" % ("accepts" if got else "rejects", "derives" if expected else "does not derive")))
             acc += bool(got)
+        # with no options given a document is parsed as an EXECUTABLE document without the experimental extensions: the type-system grammar is "when enabled",
+        # and this is what the request entry points do with a query text
+        if entry == "document":
+            from py_gql.exc import GraphQLSyntaxError
+            from py_gql.lang import parse as _parse
+            n += 1
+            want_default = G.accepts(text, entry, allow_type_system=False, fragment_variables=False)
+            try:
+                _parse(text)
+                got_default = True
+            except GraphQLSyntaxError:
+                got_default = False
+            except RecursionError:
+                raise
+            except Exception:
+                got_default = None          # (reported by the flagged runs above)
+            if got_default is not None and got_default != want_default:
+                fails.append(("parse:accepts-exactly-the-grammar", {"text": text, "entry": entry, "flags": "defaults", "grammar": want_default, "parser": got_default},
+                              "parse(text) with default options %s a text the executable grammar %s" % (
+                                  "accepts" if got_default else "rejects", "derives" if want_default else "does not derive")))
         # bytes input must behave exactly like str input
         a1, _f, o1 = judge_text(entry, text, True, False, True)
         a2, f2, o2 = judge_text(entry, text, True, False, True, as_bytes=True)
@@ -298,6 +318,11 @@ _CONST_SITES = [
 _CONST_VALUES = ["1", "$v", "[$v]", "{k: $v}", "[[{k: [$v]}]]"]
 # a query (keyword form, nothing that forces the keyword) right after a type-system definition without a body: the printer must not fall back to the
 # short form there
+# text that Unicode normalisation or a line-splitting helper would change: combining sequences, compatibility characters, the separators str.splitlines knows
+# beyond LF / CR - in string and block string literals, descriptions and comments (they are ordinary source characters)
+HAND_DOCUMENTS += ['{ f(s: "cafe\u0301 \u212b ngstro\u0308m \u1112\u1161\u11ab \uf900") g(s: "a\u2028b\u2029c\u0085d\u001ce") } # cafe\u0301 \u2028 tail',
+                   '{ f(s: """x\u2028y\n  cafe\u0301\u0085z""") }',
+                   '"de\u0301sc \u2029 ription" type A { "\u212b" a(x: String = "o\u0308\u0085"): Int } """\n  blo\u2028ck\n""" enum E { A }']
 HAND_DOCUMENTS += ["%s query { a }" % d for d in ("type A", "input I", "extend schema @d", "enum E", "extend enum E @d", "interface I", "scalar S", "union U",
                                                    "type A implements B", "extend type A @d", "directive @d on FIELD", "schema { query: Q }")] + \
                   ["type A { x: Int } query { a } type B query { b } fragment F on A { x } query { c }", "query { a } type A", "type A query { a: b } query { c }"]
@@ -424,6 +449,9 @@ def _tree_chunk(items):
             n += 1
             for clause, detail in TC.check_tree(text, doc, flags) + TC.check_no_location(text, doc, entry, flags):
                 fails.append((clause, {"text": text, "entry": entry, "fragment_variables": efv}, detail))
+            if not efv and any(getattr(a_, "source", None) is not None and a_.source != text for _p, a_ in TC.walk(doc)):
+                fails.append(("tree:same-tree-for-str-and-bytes", {"text": text, "entry": entry, "submitted_as": "str"},
+                              "nodes do not refer back to the submitted text (their `source` is another string): spans index something else than what was submitted"))
             if not efv:
                 # spans are offsets into the SUBMITTED text, whichever way it is submitted: str and UTF-8 bytes, with and without a leading byte order mark
                 # (which is a character of the text like any other ignored one), give the same tree with the same spans
@@ -433,6 +461,9 @@ def _tree_chunk(items):
                     except Exception as e:
                         fails.append(("tree:same-tree-for-str-and-bytes", {"text": text, "entry": entry, "submitted_as": label}, "%s route raised %r" % (label, e)))
                         continue
+                    if any(getattr(a_, "source", None) is not None and a_.source != (text if label == "bytes" else "\ufeff" + text) for _p, a_ in TC.walk(other)):
+                        fails.append(("tree:same-tree-for-str-and-bytes", {"text": text, "entry": entry, "submitted_as": label},
+                                      "nodes of the %s route do not refer back to the submitted text as a str (their `source` differs from it)" % label))
                     want = doc if label == "bytes" else None
                     if label.startswith("bom"):
                         ref = _entry_call(entry)("\ufeff" + text, **flags) if label == "bom+bytes" else None
